@@ -357,7 +357,9 @@ class JacobianAssembly:
             outputs = itertools.chain(functions, couplings)
 
         # functions and coupling and states
+        current_names = set()
         for output in outputs:
+            current_names.add(output)
             discipline = self.coupling_structure.find_discipline(output)
             self.disciplines[output] = discipline
             # get an arbitrary Jacobian and compute the number of rows
@@ -369,6 +371,23 @@ class JacobianAssembly:
 
         # variables
         for variable in variables:
+            if variable in current_names:
+                continue
+
+            # The sizes are those of the current data:
+            # a size found at a previous call may not be the current one.
+            self.sizes.pop(variable, None)
+            for discipline in self.coupling_structure.disciplines:
+                value = discipline.io.data.get(variable)
+                if variable in discipline.io.input_grammar and value is not None:
+                    self.sizes[variable] = (
+                        discipline.io.input_grammar.data_converter.get_value_size(
+                            variable, value
+                        )
+                    )
+                    self.disciplines[variable] = discipline
+                    break
+
             for discipline in self.coupling_structure.disciplines:
                 if variable not in self.sizes:
                     for jacobian in discipline.jac.values():
@@ -377,21 +396,6 @@ class JacobianAssembly:
                             self.sizes[variable] = jacobian_wrt_variable.shape[1]
                             self.disciplines[variable] = discipline
                             break
-
-            if variable not in self.sizes:
-                # No discipline has been linearized with respect to this variable
-                # because the functions do not depend on it:
-                # its size is the one of its value.
-                for discipline in self.coupling_structure.disciplines:
-                    value = discipline.io.data.get(variable)
-                    if variable in discipline.io.input_grammar and value is not None:
-                        self.sizes[variable] = (
-                            discipline.io.input_grammar.data_converter.get_value_size(
-                                variable, value
-                            )
-                        )
-                        self.disciplines[variable] = discipline
-                        break
 
             if variable not in self.sizes:
                 msg = f"Failed to determine the size of input variable {variable}"
